@@ -11,7 +11,7 @@ Separate Extraction
   EdInst.ml_init EdInst.ml_key EdInst.ml_select EdInst.ml_cancel EdInst.ml_start_selecting EdInst.ml_commit
   EdInst.ml_clear EdInst.ml_ack EdInst.ml_set_options EdInst.ml_set_engine EdInst.ml_set_layout EdInst.ml_clear_syl
   EdInst.ml_jump_next EdInst.ml_jump_prev EdInst.ml_jump_first EdInst.ml_jump_last EdInst.ml_learn EdInst.ml_unlearn
-  EdInst.ml_candidates EdInst.ml_total_page EdInst.ml_syl_read EdInst.ml_layout EdInst.ml_valid_conv EdInst.ml_engine_alts
+  EdInst.md_ops EdInst.mdf_ops EdInst.ml_candidates EdInst.ml_total_page EdInst.ml_syl_read EdInst.ml_layout EdInst.ml_valid_conv EdInst.ml_engine_alts
   CapiKeys.handle_code CapiKeys.handle_default CapiKeys.handle_ctrlnum CapiKeys.handle_numlock CapiKeys.set_kbtype
   CapiKeys.set_selkey CapiKeys.cand_choose CapiKeys.cand_open CapiKeys.cand_close CapiKeys.cand_list CapiKeys.commit_preedit
   CapiKeys.clean_preedit CapiKeys.clean_bopomofo CapiKeys.reset CapiKeys.default_sel_keys CapiConfig.config_set_int_c CapiConfig.config_get_int_c CapiConfig.userphrase_add CapiConfig.userphrase_remove CapiConfig.userphrase_lookup CapiKeys.c_flags CapiKeys.c_commit_string CapiKeys.c_aux_string CapiKeys.c_cand_enumerate
